@@ -131,6 +131,8 @@ class StochasticSearcher(BaseSearcher):
         :return: Filtered ``restrict_configurations``
         """
         assert len(restrict_configurations) > 0
+        # The list is modified later on, do not touch the caller's argument
+        restrict_configurations = restrict_configurations.copy()
         remove_p2e = []
         remove_rc = []
         matchstr_to_pos = {
